@@ -3,6 +3,9 @@
 #include "ccl/Entity.hpp"
 
 #include <random>
+#ifdef CCL_VERIF
+#include <functional>
+#endif
 
 namespace ccl::tools {
 
@@ -12,6 +15,10 @@ class EntityGenerator {
   SetOfEntities entities{};
 
 public:
+#ifdef CCL_VERIF
+  //! Verification hook: when set, NewUID draws candidate identifiers from this source
+  static inline std::function<EntityUID()> verifSource{};
+#endif
   void Clear() noexcept;
 
   [[nodiscard]] EntityUID NewUID();
